@@ -242,8 +242,8 @@ def gen_class(tier, rng):
                 Pi = rng.choice([1, 1, 2, 3])
                 objs.append({"P": Pi, "M": Sm(rmat(rng, npix, Pi, mag=(i % 4 == 0))), "reg": rng.random() < 0.5})
             value = rng.choice(["default", "1/8", "1", "2", "0"])
-            en = rng.choice(NOISE_EXPS) if i % 4 == 0 else 0
-            yield dict(base, op="inv", preload=bool(i % 2), objs=objs, data=[Sv(v) for v in rcv(rng, K, e=rexp(rng, i % 4 == 0))],
+            en = rng.choice(NOISE_EXPS)
+            yield dict(base, op="inv", preload=bool(i % 2), objs=objs, data=[Sv(v) for v in rcv(rng, K, e=rexp(rng))],
                        noise=[Sv(v) for v in rnoise(rng, K, e=en)], value=value, factory=bool(i % 3 == 0),
                        sibling=rng.choice(["M", "data", "noise", "reg"]) if i % 4 in (0, 2) else None)
 
@@ -301,6 +301,7 @@ def sibling_values(rng, kind, vals):
 
 def gen_hist_one(rng, h=0):
     H, W = rng.choice([(1, 3), (2, 2), (2, 3), (3, 2), (3, 3), (2, 4), (4, 3), (3, 4)])
+    if SIB_KINDS[h % len(SIB_KINDS)] in ("reshape", "transpose"): H, W = rng.choice([(2, 3), (3, 2), (2, 4), (4, 3), (3, 4)])
     n = rng.randint(1, min(H * W - 1, 5))
     m0 = mask_from_cells(H, W, rng.sample([(y, x) for y in range(H) for x in range(W)], n))
     sy = rng.choice(SCALES); sx = sy if rng.random() < 0.3 else rng.choice(SCALES)
@@ -377,7 +378,9 @@ def gen_hist_one(rng, h=0):
         while any(seqs):
             q = rng.choice([q for q in seqs if q]); steps.append(q.pop(0))
     mk, uk = add_mask(g0), add_uv(uv0)
-    pre0 = rng.random() < 0.75
+    # first round over the sibling kinds: tables preloaded; second round: alternating
+    r = h % (2 * len(SIB_KINDS))
+    pre0 = (rng.random() < 0.7) if h >= 2 * len(SIB_KINDS) else True if r < len(SIB_KINDS) else ((r - len(SIB_KINDS)) % 3 != 2)
     add_tr(mk, uk, pre0)
     nsib = rng.choice([1, 2, 2, 3])
     edit_at = rng.randrange(nsib) if h % 3 == 1 else None      # at most one in-place edit of a caller's object per history
@@ -387,7 +390,9 @@ def gen_hist_one(rng, h=0):
         g = masks[trs[src]["mask"]]; uv = uvs[trs[src]["uv"]]
         # the first sibling's kind goes round-robin over the histories so that every ingredient is varied alone several times
         kind = SIB_KINDS[h % len(SIB_KINDS)] if si == 0 else rng.choice(SIB_KINDS)
-        if si == edit_at and kind not in MASK_KINDS[:5] + ("uv_one", "uv_rev", "uv_neg"): kind = rng.choice(["shift", "move1", "uv_one"])
+        if si == edit_at and kind not in MASK_KINDS[:5] + ("uv_one", "uv_rev", "uv_neg"):
+            if si == 0: edit_at = 1 if nsib > 1 else None          # never replace the round-robin kind
+            else: kind = rng.choice(["shift", "move1", "uv_one"])
         pre = pre0 if si == 0 or rng.random() < 0.75 else (not pre0)
         mk, uk = trs[src]["mask"], trs[src]["uv"]
         if kind in MASK_KINDS:
